@@ -700,3 +700,77 @@ Proof.
   destruct short_untested_int_refuted as (A & B & C). destruct short_optstr_accepted_and_str_refuted as (D & _ & E & _ & F).
   repeat split; assumption.
 Qed.
+
+(** ROUND 5 — THE WHOLE PROPERTY FROM GENERATED OBJECTS ONLY.  Every hypothesis above the line is a boolean over objects the
+    translators regenerate from vmf.py / keyvalues.py / math.py / instancing.py on every run, and is discharged by a named
+    instance obligation of the check ([all_classes_complete_and_independent] = the first three, [all_flows_present],
+    [conditional_rows_are_joins], [pickle_state_positions_match:Output], [pickle_short_form_restores_export_equal:Output],
+    [ops_store_nothing_to_operands:*], [kv_add_appends_to_copy_and_returns_it], [kv_added_items_are_copied],
+    [collapse_never_writes_template], [collapse_only_copies_enter_target]).  What remains SEMANTIC is visible inside the
+    conjuncts: the heap relations of a census row ([kinds_rel], [fields_rel_src], [fields_rel_c] — decided in the kernel on
+    heaps of real copies by the two row certificates), "the trace of a run only contains origins the census lists" for
+    operators and collapse_one ([trun] / [crun] premises — compared with run-time traces by the correspondences), and the
+    abstraction of field values to the classes of StorePickleShort.v. *)
+Theorem c09_property :
+  all_fresh = true -> all_sources_match = true -> all_export_ok = true -> all_args_lossless = true ->
+  cond_rows_ok all_census cond_rows = true ->
+  state_ok (names census_Output) output_state_put output_state_get = true ->
+  short_ok output_short_rows = true ->
+  ops_store_nothing_to_operands op_census_all = true ->
+  recv_is_copy kv_add_recv_single && recv_is_copy kv_add_recv_iter && recv_is_copy kv_add_ret = true ->
+  kv_add_single_copied && kv_add_iter_copied = true ->
+  collapse_never_writes_template collapse_writes = true -> collapse_only_copies_enter collapse_enters = true ->
+  (* 1. every copy method of the table: complete (observed equal under the export masks) and independent both ways *)
+  (forall label c, In (label, c) all_census ->
+   exists s cls reads, lookup label all_sources = Some s /\ lookup label class_of_label = Some cls /\
+    lookup cls all_export_reads = Some reads /\
+    forall (mk : loc -> list bool) h h' la lc nd nd',
+      closed h -> closed h' -> extends h h' -> h la = Some nd -> h lc = None -> h' lc = Some nd' ->
+      nmut nd' = nmut nd -> mk la = obs_mask c reads -> mk lc = obs_mask c reads ->
+      List.length (nfields nd) = List.length c ->
+      kinds_rel h c (nfields nd) ->
+      fields_rel_src h h' (nfields nd) (resolve c s) (nfields nd') ->
+      fields_rel_c mk h h' (nfields nd) (eresolve c s reads) (nfields nd') ->
+      mobs_eq mk h h' (VRef la) (VRef lc) /\
+      (forall ms h'' R, steps (h', [lc]) ms (h'', R) -> forall n, munfold mk n h'' (VRef la) = munfold mk n h (VRef la)) /\
+      (forall ms h'' R, steps (h', [la]) ms (h'', R) -> forall n, munfold mk n h'' (VRef lc) = munfold mk n h (VRef la))) /\
+  (* 2. a conditional row (a conditional of copy() or of an attrs converter) is fresh whichever branch an input takes *)
+  (forall lab f a b, In (lab, f, a, b) cond_rows ->
+   exists c k, clookup lab all_census = Some c /\ In (f, k, how_join a b) c /\
+               (field_fresh k (how_join a b) = true -> forall t : bool, field_fresh k (if t then a else b) = true)) /\
+  (* 3. copy.copy / copy.deepcopy / pickle of an Output: every data field comes back with its own value (long state) *)
+  (forall obj f, In f (names census_Output) ->
+   alookup f (setstate output_state_get (getstate obj output_state_put)) = Some (alookup f obj)) /\
+  (* 4. ... and an original that takes the SHORT state gets constants back that export like its values *)
+  (forall f ty ts d, In (f, ty, ts, d) output_short_rows ->
+   forall v, has_type ty v = true -> all_fail ts v = true -> export_equiv ty v (default_val d) = true) /\
+  (* 5. Vec / Angle / Matrix operators that produce a new value store into no operand *)
+  (forall r, In r op_census_all -> op_kind r = OpPure -> forall o, In o (op_writes r) -> is_operand o = false) /\
+  (* 6. Keyvalues '+': the left operand is unchanged, the result holds copies of the right operand's children *)
+  (forall (A : Type) (cp : A -> A) single (self other : list A),
+   kv_add_ids cp kv_add_recv_single kv_add_recv_iter kv_add_ret kv_add_single_copied kv_add_iter_copied single self other
+   = (self, (self ++ map cp other)%list)) /\
+  (* 7. collapsing an instance leaves the template observed unchanged *)
+  (forall tgt tmpl h tr h' F',
+   (forall e, In e tr -> (exists s, In (s, snd (fst e)) collapse_writes) /\
+                         forall vo, In vo (snd e) -> exists s, In (s, vo) collapse_enters) ->
+   closed h -> alloc h tgt -> alloc h tmpl -> sep h tmpl [tgt] ->
+   crun tgt tmpl (h, []) tr (h', F') ->
+   forall n, unfold n h' (VRef tmpl) = unfold n h (VRef tmpl)) /\
+  (* 8. every argument copy() hands to a constructor reaches its field without loss (flows through the constructor) *)
+  (forall label c, In (label, c) all_census -> exists fl, lookup label all_flows = Some fl /\ copy_args_lossless c fl = true).
+Proof.
+  intros H1 H2 H3 H4 H5 H6 H7 H8 H9 H10 H11 H12.
+  split; [exact (c09_all_classes_complete_and_independent H1 H2 H3)|].
+  split; [exact (c09_cond_rows_checked cond_rows H5)|].
+  split; [exact (c09_pickle_state_roundtrip _ _ _ H6)|].
+  split; [exact (c09_pickle_short_form_export_equal output_short_rows H7)|].
+  split; [exact (c09_all_ops_pure H8)|].
+  split.
+  { intros A cp single self other.
+    exact (proj1 (c09_kv_add_ids_fresh A cp _ _ _ _ _ H9 H10 single self other)). }
+  split.
+  { intros tgt tmpl h tr h' F'.
+    exact (c09_census_collapse_template_frame collapse_writes collapse_enters tgt tmpl h tr h' F' H11 H12). }
+  exact (c09_all_classes_args_lossless H4).
+Qed.
